@@ -332,7 +332,7 @@ def net_case(torch, seed, opts=None):
     from plinio.methods.pit.nn.features_masker import PITFrozenFeaturesMasker
     opts = dict(opts or {})
     rng = random.Random(seed)
-    spec = opts.get('spec') or cn.gen(rng, dim=rng.choice([1, 2]), conv_head=True, cmax=rng.choice([3, 6, 6]), p_twice=0.4, p_pflat=0.3,
+    spec = opts.get('spec') or cn.gen(rng, dim=rng.choice([1, 2]), conv_head=True, cmax=rng.choice([3, 6, 6]), p_twice=0.4, p_pflat=0.3, p_scat=0.35,
                                    weights=({'dw': 0.3, 'dwchain': 0.15} if rng.random() < 0.7 else {}))
     o = {'seed': seed, 'arch': cn.describe(spec), 'spec': spec, 'skip': (cn.skip_reason(spec) if os.environ.get('C04_SKIP_C09_TOPOLOGIES', '0') == '1' else None), 'fails': [], 'opts': {k: v for k, v in opts.items() if k != 'spec'}}
     if o['skip']:
